@@ -260,6 +260,10 @@ fn rv_err_to_real(e: RE) -> Err {
         RE::Custom(m) => EvalexprError::CustomMessage(m),
         RE::FnNotFound(n) => EvalexprError::FunctionIdentifierNotFound(n),
         RE::Expected(Exp::Int, v) => EvalexprError::ExpectedInt { actual: from_rv(&v) },
+        RE::Arity => EvalexprError::WrongFunctionArgumentAmount { expected: 3..=3, actual: 2 },
+        RE::Type => EvalexprError::ExpectedFixedLengthTuple { expected_length: 3, actual: Val::Int(0) },
+        RE::Arith => EvalexprError::DivisionError { dividend: Val::Int(1), divisor: Val::Int(0) },
+        RE::VarNotFound(n) => EvalexprError::VariableIdentifierNotFound(n),
         other => EvalexprError::CustomMessage(format!("harness-uf-error:{:?}", other)),
     }
 }
